@@ -16,15 +16,20 @@ def obligations(tier):
                              "MIR_code_alloc_t (page protection state, mapping ledger), page size 64" % nops))
     names = {0: "publish", 1: "publish_by_addr", 2: "change", 3: "update"}
     seqs = [(0, 2), (0, 3), (0, 0), (0, 1), (1, 0)] + ([(0, 0, 2), (0, 2, 3), (0, 1, 2), (0, 3, 0)] if tier == "thorough" else [])
-    for sq in seqs:
+    # page size 32: one published region (<= 48 bytes) already crosses a page boundary, so change / update of bytes that straddle
+    # two pages are reached by two-operation histories (with page size 64 that needs publish ; publish ; change - thorough tier)
+    small = [(0, 2), (0, 3)]
+    for sq, psz in [(q, 64) for q in seqs] + [(q, 32) for q in small]:
         n = len(sq)
         loops = {"memcpy#0": 8, "memcpy#1": 50, "_MIR_set_code#0": 3, "_MIR_set_code#1": 3, "_MIR_update_code_arr#0": 3,
                  "code_finish#0": n + 2, "h_ledger_find#0": 8, "h_ledger_live#0": 8, "h_mem_protect#0": 8, "h_memcpy_hook#0": 8,
                  "h_memcpy_hook#1": 50, "h_mem_map#0": 8, "h_mem_unmap#0": 8, "h_mem_unmap#1": 8, "h_no_page_writable#0": 8}
-        obs.append(Ob("code_holders." + "+".join(names[k] for k in sq), "C17/code_holders.c",
-                      defs=["H_NOPS=%d" % n, "H_OPSEQ=" + ",".join(str(k) for k in sq)], loops=loops, unwind=8,
+        if psz == 32:  # 8 pages
+            loops.update({k: 10 for k in ("h_mem_protect#0", "h_memcpy_hook#0", "h_mem_map#0", "h_mem_unmap#0", "h_mem_unmap#1", "h_no_page_writable#0")})
+        obs.append(Ob("code_holders." + "+".join(names[k] for k in sq) + (".page32" if psz == 32 else ""), "C17/code_holders.c",
+                      defs=["H_NOPS=%d" % n, "H_OPSEQ=" + ",".join(str(k) for k in sq)] + (["H_PSZ=32", "H_PAGES=8"] if psz == 32 else []), loops=loops, unwind=8,
                       unwindset={"harness.%d" % i: 50 for i in range(8)}, checks="memsafe-noptr", timeout=1500, object_bits=10,
-                      sample="operation sequence %s with symbolic lengths 0..48, offsets and addresses, then code_finish" % " ; ".join(names[k] for k in sq)))
+                      sample="operation sequence %s with symbolic lengths 0..48, offsets and addresses, then code_finish; page size %d" % (" ; ".join(names[k] for k in sq), psz)))
     # the VARR / HTAB contracts with the ledger allocator are the C19 harnesses (they assert: realloc is told the true old
     # size, no use of a stale block, destroy frees every block exactly once, free_func once per dropped element)
     for ob in C19.obligations(tier):
